@@ -196,7 +196,7 @@ type instForm struct {
 	meta func() string
 }
 
-func (i instForm) Meta() string                          { return i.meta() }
+func (i instForm) Meta() string { return i.meta() }
 
 func (i instForm) Feed(p []byte) ([]byte, error, string) { return i.feed(p) }
 func (i instForm) Head(p []byte) bool                    { return (&codecs.H265Packet{}).IsPartitionHead(p) }
